@@ -394,6 +394,22 @@ def c16(inp, rng, out):
                               okp = ru is not None and ru.startswith(b"URI:" + case["ro_kind"].encode() + b":")
                               if not okp or (case["ro_kind"] == case["kind"] and ru != canon) or (case["ro_kind"] != case["kind"] and canon.split(b":")[2] in ru):
                                   mism.add("C16:create_from_cap:%s:readonly_uri" % tag, "node.get_readonly_uri() = %r" % (ru,), ex)
+                          # caps the node hands out for verification / repair (manifests, deep-check streams): never the
+                          # stronger secret; a read-only or immutable object's repair cap carries no key at all
+                          secret = canon.split(b":")[2] if canon.count(b":") >= 3 and "Verifier" not in case["kind"] else None
+                          if secret and hasattr(node, "get_verify_cap"):
+                              vc = node.get_verify_cap()
+                              if vc is not None and secret in vc.to_string():
+                                  mism.add("C16:create_from_cap:%s:verify_cap_carries_secret" % tag, "node.get_verify_cap() = %r" % (vc.to_string(),), ex)
+                          if secret and hasattr(node, "get_repair_cap"):
+                              rc = node.get_repair_cap()
+                              if rc is not None:
+                                  rcs = rc.to_string()
+                                  if case["flags"]["ro"] and secret in rcs:
+                                      mism.add("C16:create_from_cap:%s:repair_cap_carries_secret" % tag,
+                                               "node.get_repair_cap() of a read-only / immutable object = %r" % (rcs,), ex)
+                                  elif not case["flags"]["ro"] and rcs != canon and secret in rcs:
+                                      mism.add("C16:create_from_cap:%s:repair_cap_other_secret_form" % tag, "node.get_repair_cap() = %r" % (rcs,), ex)
                   except Exception as e:
                       mism.add("C16:create_from_cap:%s:exception" % tag, "inspecting the node raised %s: %s" % (type(e).__name__, str(e)[:100]), ex)
             else:
